@@ -10,6 +10,7 @@ include!("../../kani/specs.rs");
 mod ops;
 mod native;
 mod tables;
+mod ring;
 #[cfg(feature = "physics")]
 mod phys;
 #[cfg(feature = "physics")]
